@@ -339,20 +339,28 @@ Fixpoint tspec_run (db : list (N * N)) (ops : list top) : list tres :=
   | op :: r => let '(db', res) := tspec db op in res :: tspec_run db' r
   end.
 
-(* chain operations only; a connected transaction id is not in the index yet
-   (duplicate transactions are rejected by validation) and occurs once in its
-   block *)
-Fixpoint tdisc (db : list (N * N)) (ops : list top) : bool :=
+(* chain operations only (ConnectBlock / DisconnectBlock / FetchTx); a connected
+   transaction id is not in the index yet (duplicate transactions are rejected
+   by validation); whether a transaction is a RegisterAsset one is a function
+   [regf] of its id (ids are content hashes) *)
+Fixpoint fresh_txs (regf : N -> bool) (d : list (N * N)) (h : N) (txs : list (N * bool * bool))
+  : option (list (N * N)) :=
+  match txs with
+  | [] => Some d
+  | e :: l =>
+    if negb (ahas N.eqb d (fst (fst e))) && Bool.eqb (snd (fst e)) (regf (fst (fst e)))
+    then fresh_txs regf (aset N.eqb d (fst (fst e)) h) h l else None
+  end.
+
+Fixpoint tdisc (regf : N -> bool) (db : list (N * N)) (ops : list top) : bool :=
   match ops with
   | [] => true
   | TConnect h txs _ _ :: r =>
-    (fix chk (d : list (N * N)) (l : list (N * bool * bool)) : bool :=
-       match l with
-       | [] => tdisc d r
-       | (t, _, _) :: l' => negb (ahas N.eqb d t) && chk (aset N.eqb d t h) l'
-       end) db txs
-  | TDisconnect txs :: r => tdisc (fold_left (fun (d : list (N * N)) (e : N * bool * bool) => adel N.eqb d (fst (fst e))) txs db) r
-  | TFetch _ :: r => tdisc db r
+    match fresh_txs regf db h txs with Some d => tdisc regf d r | None => false end
+  | TDisconnect txs :: r =>
+    forallb (fun e : N * bool * bool => Bool.eqb (snd (fst e)) (regf (fst (fst e)))) txs &&
+    tdisc regf (fold_left (fun (d : list (N * N)) (e : N * bool * bool) => adel N.eqb d (fst (fst e))) txs db) r
+  | TFetch _ :: r => tdisc regf db r
   | _ :: _ => false
   end.
 
@@ -505,12 +513,13 @@ Definition sop_out (op : sop) : N := match op with SSend _ _ s => s | SOther s =
 
 (* the serialisation of a block message is determined by (hash, HaveConfirm)
    throughout the history *)
+Definition hceqb (a b : N * bool) : bool := (fst a =? fst b) && Bool.eqb (snd a) (snd b).
 Fixpoint sconsistent (seen : list (N * bool * N)) (ops : list sop) : bool :=
   match ops with
   | [] => true
   | SOther _ :: r => sconsistent seen r
   | SSend h c s :: r =>
-    match aget (fun a b => (fst a =? fst b) && Bool.eqb (snd a) (snd b)) seen (h, c) with
+    match aget hceqb seen (h, c) with
     | Some s' => (s' =? s) && sconsistent seen r
     | None => sconsistent (((h, c), s) :: seen) r
     end
